@@ -6,6 +6,7 @@ import (
 	"errors"
 	"fmt"
 	"io"
+	"slices"
 	"sort"
 	"testing"
 
@@ -251,79 +252,108 @@ func TestC18Readers(t *testing.T) {
 		if _, err := c.Font.Write(&buf); err != nil {
 			t.Fatalf("Write failed: %v", err)
 		}
-		b := buf.Bytes()
-		variant := "as written"
-		if rapid.IntRange(0, 2).Draw(t, "emptyLast") == 0 {
-			// corpus variant: the same tables re-assembled in tag order with an
-			// empty table as the physically last one
-			if rf0, err := refsfnt.Parse(b); err == nil {
+		type fileVariant struct {
+			variant string
+			b       []byte
+		}
+		files := []fileVariant{{"as written", buf.Bytes()}}
+		if rf0, err := refsfnt.Parse(buf.Bytes()); err == nil {
+			if rapid.Bool().Draw(t, "emptyLast") {
+				// corpus variant: the same tables re-assembled in tag order with an
+				// empty table as the physically last one
 				tables := rf0.Tables()
 				tables[rapid.SampledFrom([]string{"zzzz", "prep", "vmtx"}).Draw(t, "emptyTag")] = []byte{}
-				b = refsfnt.Assemble(rf0.Scaler, tables)
-				variant = "re-assembled with an empty last table"
-			}
-		}
-		L := len(b)
-		clean, err := sfnt.Read(bytes.NewReader(b))
-		if err != nil {
-			t.Fatalf("clean Read failed: %v\n%s", err, c)
-		}
-		rf, err := refsfnt.Parse(b)
-		if err != nil {
-			t.Fatalf("%v", err)
-		}
-		// needed bytes: directory and every table's data
-		D := 12 + 16*rf.NumTables
-		var bounds []int
-		bounds = append(bounds, D)
-		type span struct{ a, b int }
-		var spans []span
-		for _, r := range rf.Records {
-			bounds = append(bounds, int(r.Offset), int(r.Offset+r.Length))
-			spans = append(spans, span{int(r.Offset), int(r.Offset + r.Length)})
-			if e := int(r.Offset + r.Length); e > D {
-				D = e
-			}
-		}
-		all := stats.Thorough() && L <= 4000
-		for _, k := range faultPoints(t, L, bounds, all) {
-			type attempt struct {
-				name string
-				mk   func() io.Reader
-			}
-			attempts := []attempt{
-				{"truncated/ReaderAt", func() io.Reader { return bytes.NewReader(b[:k]) }},
-				{"truncated/Reader", func() io.Reader { return &faultReader{data: b[:k], limit: k} }},
-				{"fault/ReaderAt", func() io.Reader { return readerAtOnly{&faultReaderAt{data: b, limit: k}} }},
-				{"fault/Reader", func() io.Reader { return &faultReader{data: b, limit: k, chunk: 512} }},
-			}
-			for _, a := range attempts {
-				var g *sfnt.Font
-				var err error
-				r := a.mk()
-				if pn := guard.Try(func() { g, err = sfnt.Read(r) }); pn != nil {
-					t.Fatalf("%s at %d of %d: Read panicked: %s\n%s\n%s", a.name, k, L, pn, c, pn.Stack)
+				files = append(files, fileVariant{"re-assembled with an empty last table", refsfnt.Assemble(rf0.Scaler, tables)})
+			} else {
+				// corpus variant: files as other tools write them - tables the
+				// library does not interpret (signature, bitmaps, metadata) among
+				// its own, and the table data in another physical order
+				tables := rf0.Tables()
+				foreign := []string{"DSIG"}
+				if rapid.Bool().Draw(t, "secondForeign") {
+					foreign = append(foreign, rapid.SampledFrom([]string{"EBDT", "EBLC", "zzzz", "meta", "LTSH", "FFTM"}).Draw(t, "foreignTag"))
 				}
-				if err == nil {
-					if k < D {
-						t.Fatalf("%s at %d of %d: Read succeeded although table data extends to %d\n%s", a.name, k, L, D, c)
+				for _, tag := range foreign {
+					tables[tag] = rapid.SliceOfN(rapid.Byte(), 1, 300).Draw(t, "foreignData")
+				}
+				var order []string
+				for tag := range tables {
+					order = append(order, tag)
+				}
+				sort.Strings(order)
+				order = rapid.Permutation(order).Draw(t, "physicalOrder")
+				if rapid.IntRange(0, 3).Draw(t, "foreignLast") != 0 {
+					// a foreign table is the physically last one
+					last := rapid.SampledFrom(foreign).Draw(t, "lastTable")
+					order = append(slices.DeleteFunc(order, func(x string) bool { return x == last }), last)
+				}
+				files = append(files, fileVariant{"re-assembled with foreign tables (last: " + order[len(order)-1] + ")", refsfnt.AssembleOrdered(rf0.Scaler, tables, order)})
+			}
+		}
+		for _, fv := range files {
+			b, variant := fv.b, fv.variant
+			L := len(b)
+			clean, err := sfnt.Read(bytes.NewReader(b))
+			if err != nil {
+				t.Fatalf("clean Read failed (%s): %v\n%s", variant, err, c)
+			}
+			rf, err := refsfnt.Parse(b)
+			if err != nil {
+				t.Fatalf("%v", err)
+			}
+			// needed bytes: directory and every table's data
+			D := 12 + 16*rf.NumTables
+			var bounds []int
+			bounds = append(bounds, D)
+			type span struct{ a, b int }
+			var spans []span
+			for _, r := range rf.Records {
+				bounds = append(bounds, int(r.Offset), int(r.Offset+r.Length))
+				spans = append(spans, span{int(r.Offset), int(r.Offset + r.Length)})
+				if e := int(r.Offset + r.Length); e > D {
+					D = e
+				}
+			}
+			all := stats.Thorough() && L <= 4000
+			for _, k := range faultPoints(t, L, bounds, all) {
+				type attempt struct {
+					name string
+					mk   func() io.Reader
+				}
+				attempts := []attempt{
+					{"truncated/ReaderAt", func() io.Reader { return bytes.NewReader(b[:k]) }},
+					{"truncated/Reader", func() io.Reader { return &faultReader{data: b[:k], limit: k} }},
+					{"fault/ReaderAt", func() io.Reader { return readerAtOnly{&faultReaderAt{data: b, limit: k}} }},
+					{"fault/Reader", func() io.Reader { return &faultReader{data: b, limit: k, chunk: 512} }},
+				}
+				for _, a := range attempts {
+					var g *sfnt.Font
+					var err error
+					r := a.mk()
+					if pn := guard.Try(func() { g, err = sfnt.Read(r) }); pn != nil {
+						t.Fatalf("%s at %d of %d: Read panicked: %s\n%s\n%s", a.name, k, L, pn, c, pn.Stack)
 					}
-					if d := fontcmp.Diff(clean, g); d != "" {
-						t.Fatalf("%s at %d of %d: Read succeeded with a different font: %s\n%s", a.name, k, L, d, c)
+					if err == nil {
+						if k < D {
+							t.Fatalf("%s at %d of %d: Read succeeded although table data extends to %d\n%s", a.name, k, L, D, c)
+						}
+						if d := fontcmp.Diff(clean, g); d != "" {
+							t.Fatalf("%s at %d of %d: Read succeeded with a different font: %s\n%s", a.name, k, L, d, c)
+						}
+					} else if k >= L {
+						t.Fatalf("%s at %d of %d (complete file): Read failed: %v\n%s", a.name, k, L, err, c)
 					}
-				} else if k >= L {
-					t.Fatalf("%s at %d of %d (complete file): Read failed: %v\n%s", a.name, k, L, err, c)
 				}
-			}
-			inside := k < 12+16*rf.NumTables
-			for _, s := range spans {
-				if k > s.a && k < s.b {
-					inside = true
+				inside := k < 12+16*rf.NumTables
+				for _, s := range spans {
+					if k > s.a && k < s.b {
+						inside = true
+					}
 				}
+				stats.CaseIn("readers", stats.Hash(b, k), inside, func() string {
+					return fmt.Sprintf("%s (%s): fault/truncation at %d of %d (4 reader flavours)", c, variant, k, L)
+				}, variant)
 			}
-			stats.CaseIn("readers", stats.Hash(b, k), inside, func() string {
-				return fmt.Sprintf("%s (%s): fault/truncation at %d of %d (4 reader flavours)", c, variant, k, L)
-			}, variant)
 		}
 	})
 }
